@@ -3,12 +3,14 @@
 //! observations (ndjson) that the trace specifications validate.
 mod util;
 mod resolve;
+mod frontend;
 
 fn main() {
     let args: Vec<String> = std::env::args().skip(1).collect();
     util::install_quiet_panic_hook();
     let code = match args.first().map(String::as_str) {
         Some("resolve") => resolve::main(&args[1..]),
+        Some("frontend") => frontend::main(&args[1..]),
         Some("version") => {
             println!("dlv 0.1");
             0
